@@ -109,8 +109,8 @@ def props_report(pid: str) -> dict:
     text = src.read_text()
     theorems = re.findall(r"^\s*Theorem\s+([A-Za-z0-9_']+)", text, re.M)
     SCRATCH.mkdir(exist_ok=True)
-    d = SCRATCH / f"props_{pid}"
-    d.mkdir(exist_ok=True)
+    d = SCRATCH / f"props_{pid}" / f"run{os.getpid()}"
+    d.mkdir(parents=True, exist_ok=True)
     tmp = d / f"{pid}_recheck.v"
     tmp.write_text(text)
     rc, out = coqc_file(tmp, timeout=900)
@@ -125,9 +125,8 @@ def props_report(pid: str) -> dict:
             assumptions[name] = []
         else:
             assumptions[name] = sorted(set(re.findall(r"^([A-Za-z_][A-Za-z0-9_'.]*)\s*:", b, re.M)))
-    for f in d.glob(f"{pid}_recheck.*"):
-        if f.suffix != ".v":
-            f.unlink()
+    import shutil
+    shutil.rmtree(d, ignore_errors=True)
     return {"ok": rc == 0, "theorems": theorems, "assumptions": assumptions, "log": out[-4000:],
             "printed": printed}
 
@@ -356,11 +355,25 @@ class Run:
 
 
 def scratch_dir(pid: str) -> Path:
-    d = SCRATCH / pid
-    d.mkdir(parents=True, exist_ok=True)
-    for f in d.iterdir():
-        if f.is_file():
-            f.unlink()
+    """A scratch directory private to this process (several runs of the same
+    check may be in flight); older run directories of the property are removed."""
+    base = SCRATCH / pid
+    base.mkdir(parents=True, exist_ok=True)
+    import shutil
+    now = time.time()
+    for f in base.iterdir():
+        try:
+            if f.is_file():
+                f.unlink()
+            elif f.is_dir() and f.name.startswith("run") and now - f.stat().st_mtime > 3600:
+                shutil.rmtree(f, ignore_errors=True)
+        except OSError:
+            pass
+    d = base / f"run{os.getpid()}"
+    shutil.rmtree(d, ignore_errors=True)
+    d.mkdir(parents=True)
+    import atexit
+    atexit.register(lambda: shutil.rmtree(d, ignore_errors=True) if not os.environ.get("VERIF_KEEP_SCRATCH") else None)
     return d
 
 
